@@ -7,7 +7,7 @@ import ast
 import itertools
 
 from .alg import Poly
-from .interp import ClassVal, FuncVal, Obj, RepoRaise, ModuleVal, AnalysisError
+from .interp import ClassVal, FuncVal, Obj, RepoRaise, ModuleVal, AnalysisError, UndecidableBranch, RegionDependent
 from .harness import N, L, DT, M, R, AnalysisBroken
 from .tens import Tens
 
@@ -138,7 +138,98 @@ def build(it, cls, D, **overrides):
     if traced:
         kwargs = {k: (as_traced(v) if k not in ("num_circle_points", "injection_mode") else v) for k, v in kwargs.items()}
         pos = [as_traced(p) if (isinstance(p, Poly) and p != N) else p for p in pos]
-    return it.call(cls, pos, kwargs)
+    try:
+        return it.call(cls, pos, kwargs)
+    except UndecidableBranch as e:
+        reg = param_region(e.cond)
+        if reg is None:
+            raise
+        return _fork_on_region(it, cls, pos, kwargs, e, reg)
+
+
+def param_region(cond):
+    """(parameter symbol, op, constant) if cond is the indicator of `param <= c` / `param < c` (or its negation)
+    for one scalar symbol: a Python-level case distinction on the *value range* of a constructor parameter"""
+    from . import alg
+
+    for q in (cond, 1 - cond):
+        if len(q.t) != 1:
+            continue
+        ((m, c),) = q.t.items()
+        if c == alg.ONE and len(m) == 1 and m[0][1] == 1 and m[0][0][0] == "ind" and m[0][0][1] in ("le", "lt"):
+            d = m[0][0][2] - m[0][0][3]
+            ats = d.all_atoms()
+            if len(ats) == 1 and next(iter(ats))[0] == "s":
+                return (next(iter(ats))[1], m[0][0][1], str(d))
+    return None
+
+
+def _fork_on_region(it, cls, pos, kwargs, e, reg):
+    """no documented formula distinguishes value ranges of a coefficient: construct under both outcomes of the
+    branch; identical objects -> the distinction is immaterial (one of them is returned), different objects -> the
+    class cannot equal one documented formula on both ranges (reported through RegionDependent)"""
+    variants = []
+    key, nkey = e.cond, 1 - e.cond
+    base = it.ctx.decide
+    for choice in (False, True):
+
+        def dec(cond, node, file, fn, _c=choice):
+            if cond == key:
+                return _c
+            if cond == nkey:
+                return not _c
+            return base(cond, node, file, fn) if base is not None else None
+
+        it.ctx.decide = dec
+        try:
+            variants.append(it.call(cls, pos, kwargs))
+        finally:
+            it.ctx.decide = base
+    diff = obj_diff(variants[0], variants[1])
+    if diff and getattr(it.ctx, "region_strict", False):
+        raise RegionDependent(cls, e.cond, e.node, e.file, e.fn, diff)
+    # checks that do not own this class's formula continue with the branch a traced parameter takes
+    return variants[0]
+
+
+def obj_diff(a, b, path="", seen=None, out=None, limit=6):
+    out = [] if out is None else out
+    seen = set() if seen is None else seen
+    if len(out) >= limit:
+        return out
+    if isinstance(a, Obj) and isinstance(b, Obj):
+        if (id(a), id(b)) in seen:
+            return out
+        seen.add((id(a), id(b)))
+        if a.cls.qual != b.cls.qual:
+            out.append(f"{path or 'object'}: {a.cls.name} vs {b.cls.name}")
+            return out
+        for k in sorted(set(a.f) | set(b.f)):
+            if k not in a.f or k not in b.f:
+                out.append(f"{path}.{k}: present in one variant only")
+            else:
+                obj_diff(a.f[k], b.f[k], f"{path}.{k}", seen, out, limit)
+        return out
+    if isinstance(a, (tuple, list)) and isinstance(b, (tuple, list)):
+        if len(a) != len(b):
+            out.append(f"{path}: length {len(a)} vs {len(b)}")
+            return out
+        for i, (x, y) in enumerate(zip(a, b)):
+            obj_diff(x, y, f"{path}[{i}]", seen, out, limit)
+        return out
+    if isinstance(a, Tens) and isinstance(b, Tens):
+        if tuple(map(str, a.shape)) != tuple(map(str, b.shape)) or list(a.data) != list(b.data):
+            out.append(f"{path}: arrays differ")
+        return out
+    if type(a) is not type(b) and not (isinstance(a, (int, Poly)) and isinstance(b, (int, Poly))):
+        out.append(f"{path}: {type(a).__name__} vs {type(b).__name__}")
+        return out
+    try:
+        if a != b and not (hasattr(a, "node") and hasattr(b, "node")):
+            out.append(f"{path}: values differ")
+    except Exception:
+        pass
+    return out
 
 
 def allowed_dims(it, cls, **kw):
